@@ -4,7 +4,7 @@ from __future__ import annotations
 
 import ast
 
-from .facts import (COUNTMIN, SKETCH_CLASSES, array_alloc, const_int, facts_of, init_attr_defs, scalar_ctor)
+from .facts import (COUNTMIN, SKETCH_CLASSES, array_alloc, const_int, facts_of, init_attr_defs, param_rebinds, scalar_ctor)
 from .flow import NP_DTYPES, Arr, Bytes, Num, Opaque, Tup, c_not, conjuncts, show_cond
 from .lin import Lin, show_lin
 from .model import AnalysisError, Ty, call_name, calls_in, dotted, resolve_temps, self_attr, unparse, walk_no_nested
@@ -176,6 +176,15 @@ def rule_mergeguard(ctx, classes=SKETCH_CLASSES):
                     okk = None if (unknown_conv and okk is not False) else False
                     why = ("self.%s = %s: the conversion is a callable the analysis cannot name" % (a, unparse(d.value, 50)) if unknown_conv else
                            "self.%s = %s is not a NumPy scalar built from the parameter `%s`" % (a, unparse(d.value, 50), a))
+            # the name read there must still be the caller's argument: a rebinding that replaces a legal value (a falsy 0 taken for
+            # "not given") makes differently requested sketches compare equal
+            for rb in param_rebinds(F.ctor(cls).node, a) if okk else ():
+                if rb[0] == "truthy-default" and const_int(rb[2]) != 0:
+                    okk, why = False, ("`%s` replaces every falsy `%s` (a legal 0 as well as None) before it is recorded: a sketch requested "
+                                       "with 0 silently gets the default and then merges with default sketches" % (unparse(rb[1], 60), a))
+                    break
+                if rb[0] == "other":
+                    okk, why = None, "the parameter `%s` is rebound by `%s` before it is recorded" % (a, unparse(rb[1], 60))
             ctx.ob("ctor-attr", F.ctor(cls), ds[0].stmt if ds else F.ctor(cls).node, "self.%s = np.T(%s)" % (a, a),
                    "compared attribute is the constructor parameter as a NumPy scalar (value comparison)", okk, "" if okk else why)
 
@@ -368,6 +377,7 @@ def rule_persist(ctx, classes=SKETCH_CLASSES):
         # how the loader feeds them back
         cc = li.ctor_call
         fed = None
+        shm_positional = None
         if cc.args and isinstance(cc.args[0], ast.Starred) and _is_args_expr(cc.args[0].value, li):
             fed = list(range(len(saved)))
             okf = len(cc.args) == 1
@@ -380,7 +390,11 @@ def rule_persist(ctx, classes=SKETCH_CLASSES):
                     i = _args_index(n.value, li)
                     if i is not None:
                         envidx[n.targets[0].id] = i
-            for a in cc.args:
+            fullp = [p_ for p_ in ctor.params if p_ != "self"]
+            for j_, a in enumerate(cc.args):
+                if j_ < len(fullp) and fullp[j_] == "shared_memory" and not any(isinstance(x, ast.Starred) for x in cc.args):
+                    shm_positional = a          # shared_memory given by position: not one of the saved parameters
+                    continue
                 i = _args_index(a, li)
                 if i is None and isinstance(a, ast.Name):
                     i = envidx.get(a.id)
@@ -399,6 +413,8 @@ def rule_persist(ctx, classes=SKETCH_CLASSES):
                "" if okf else "positions fed: %s" % fed)
         # fwd-shm
         kw = {k.arg: k.value for k in cc.keywords}
+        if shm_positional is not None and "shared_memory" not in kw:
+            kw["shared_memory"] = shm_positional
         okk = isinstance(kw.get("shared_memory"), ast.Name) and kw["shared_memory"].id == "shared_memory" and "shared_memory" in load.params
         ctx.ob("fwd-shm", load, cc, "%s(..., shared_memory=shared_memory)" % cls.name, "the loader forwards its shared_memory argument", okk)
         # each saved parameter attribute is the constructor parameter
@@ -1433,6 +1449,47 @@ def rule_owner(ctx, classes=SKETCH_CLASSES):
             opens = [n for n in walk_no_nested(att.node) if isinstance(n, ast.Call) and dotted(n.func) == "SharedMemory"]
             okk = bool(opens) and all(not any(k.arg == "create" and not (isinstance(k.value, ast.Constant) and k.value.value is False) for k in c.keywords) for c in opens)
             ctx.ob("owner", att, opens[0] if opens else att.node, "SharedMemory(name=...)", "attacher opens the block by name without creating it", okk)
+        # the release in __del__ only happens if dropping the last user reference really frees the object: nothing may park a strong
+        # reference to the sketch (or to one of its bound methods) in a process-global registry
+        keep = []
+        mod_names = set(getattr(cls.module, "globals", {}) or ())
+        for mname, meth in cls.methods.items():
+            for n in walk_no_nested(meth.node):
+                if not isinstance(n, ast.Call):
+                    continue
+                fn = dotted(n.func) or ""
+                last = fn.split(".")[-1]
+                held = []
+                if last == "finalize" and fn in ("weakref.finalize", "finalize"):
+                    held = list(n.args[1:]) + [k.value for k in n.keywords]
+                elif fn in ("atexit.register", "signal.signal") or (last == "register" and fn.split(".")[0] == "atexit"):
+                    held = list(n.args) + [k.value for k in n.keywords]
+                elif isinstance(n.func, ast.Attribute) and n.func.attr in ("append", "add", "insert", "setdefault", "update", "extend") \
+                        and isinstance(n.func.value, ast.Name) and n.func.value.id.isupper():
+                    held = list(n.args)      # a module-level (constant-style) container
+                def holds_self(x):
+                    """the object itself, one of its bound methods, or a closure / partial over either (an attribute VALUE such as
+                    self.shm or self.shm.name is a different object and keeps nothing alive)"""
+                    if isinstance(x, ast.Name):
+                        return x.id == "self"
+                    if isinstance(x, ast.Attribute) and isinstance(x.value, ast.Name) and x.value.id == "self":
+                        return cls.resolve(x.attr) is not None
+                    if isinstance(x, ast.Lambda):
+                        return any(isinstance(y, ast.Name) and y.id == "self" for y in ast.walk(x.body))
+                    if isinstance(x, ast.Call) and (dotted(x.func) or "").split(".")[-1] == "partial":
+                        return any(holds_self(y) for y in list(x.args) + [k.value for k in x.keywords])
+                    if isinstance(x, (ast.Tuple, ast.List)):
+                        return any(holds_self(y) for y in x.elts)
+                    return False
+                if any(holds_self(h) for h in held):
+                    keep.append((meth, n, fn or unparse(n.func, 40)))
+        k0 = (cls.module.relpath, cls.name)
+        if (k0, "keepalive") not in seen:
+            seen.add((k0, "keepalive"))
+            ctx.ob("owner", d, keep[0][1] if keep else cls.node, "%s: no global registry holds the sketch" % cls.name,
+                   "dropping the last reference to an owner runs __del__ (nothing keeps the object alive behind the user's back)",
+                   not keep, "" if not keep else "%s in %s holds a strong reference to `self` (or a bound method of it): the owner is never "
+                   "collected before interpreter exit, so its segment stays in the system" % (keep[0][2], keep[0][0].qualname))
         if d.key in seen:
             continue
         seen.add(d.key)
